@@ -23,7 +23,7 @@ def gen_case(seed, k, cap):
         ts += ["PartialEq"] + (["Eq"] if rng.random() < 0.5 else [])
     ts += rng.sample(["Debug", "Clone", "Default"], rng.randint(0, 1))
     rng.shuffle(ts)
-    td = G.random_type(rng, ts, G.Opts(p_attr=0.9, max_fields=4, max_variants=4, p_partial=0.0, lawful_only=True, bounds=False))
+    td = G.random_type(rng, ts, G.Opts(p_attr=0.9, max_fields=4, max_variants=4, p_partial=0.0, lawful_only=True, bounds=False, p_repr=0.5))
     if with_eq:
         # same ignore / method choices for PartialEq as for Hash (hash_alt ~ eq_mod2: both look at a % 2)
         for _, f in td.all_fields():
@@ -108,7 +108,7 @@ def judge(chk, c, obs, dropped):
                 return
             prefix = got[:len(got) - len(want)] if want else got
             if j == 0:
-                streams[i] = (got, prefix)
+                streams[i] = (got, prefix, res[2] if len(res) > 2 else got)
             elif streams.get(i, (got,))[0] != got:
                 chk.violation("operand-dependent", "hash input differs between two equal values\n%s" % c.text, files)
                 return
@@ -133,7 +133,9 @@ def judge(chk, c, obs, dropped):
                 chk.violation("same-key-different-input", "values agreeing on variant and non-ignored fields feed "
                               "different data\n%s %s\n%s | %s\n%s" % (c.vals[i], c.vals[j], streams[i][0], streams[j][0], c.text), files)
                 return
-            if ki != kj and same:
+            # "different data" is judged on the flattened bytes: write_isize(2) and write_usize(2) are different calls but
+            # the same bytes for every hasher that relies on the default forwarding
+            if ki != kj and streams[i][2] == streams[j][2]:
                 what = "variant" if ki[0] != kj[0] else "field"
                 chk.violation("different-key-same-input|%s" % what, "values differing in %s feed identical data\n%s %s\n%s\n%s"
                               % (what, c.vals[i], c.vals[j], streams[i][0], c.text), files)
